@@ -645,7 +645,7 @@ func (st *state) processLoop(g genLoop, full bool) {
 			st.maxFanErr = e
 		}
 		// small non-degenerate convex loops: "good relative accuracy even for small loops" (doc comment of Loop.Area);
-		// the bound is 1000 times the largest relative difference measured on the unchanged code
+		// the bound 1e-6 is nine orders of magnitude above the largest relative difference measured on the unchanged code (1.4e-15)
 		if !g.degen && sum > 1e-18 && sum < 1e-9 {
 			if e := math.Abs(sum-area) / sum; e > st.maxFanRel {
 				st.maxFanRel = e
